@@ -13,7 +13,7 @@
      unsendable_write     the active side's current revision becomes a LIVE revision with the body {"_deleted":true}
                           (a resolver answering null; no receiver accepts it)
 
-   Conjecture (C06_Properties.C06_converges_iff_full_statement): a history with none of the three converges after
+   Conjectured (C06_Properties.C06_converges_iff_full_statement): a history with none of the three converges after
    Pull; Push; Pull; Push, for every resolver.  Proved: for histories without deletes (ConvThm.isgr_converges_live_pol),
    and the NECESSITY of each shape (below: a diverging history that has that shape and neither of the other two).
    Evidence for the rest: 800 000 random histories of the extracted model (default / localWins / remoteWins / random
@@ -86,9 +86,14 @@ Lemma branched_resurrect_necessary :
   shapes (w_resurrect ++ catch_up default_policy 0) = (false, true, false) /\ diverged default_policy w_resurrect = true.
 Proof. vm_compute. split; reflexivity. Qed.
 
-Lemma unsendable_write_necessary :
+(* about the code as it is (Switches.null_merge_is_delete = false); with the repair a null answer is a tombstone *)
+Lemma unsendable_write_necessary : null_merge_is_delete = false ->
   shapes (w_null ++ catch_up null_policy 0) = (false, false, true) /\ diverged null_policy w_null = true.
-Proof. vm_compute. split; reflexivity. Qed.
+Proof. intros H. revert H. vm_compute. intros H. first [discriminate H | split; reflexivity]. Qed.
+
+Lemma null_merge_repaired : null_merge_is_delete = true ->
+  shapes (w_null ++ catch_up null_policy 0) = (false, false, false) /\ diverged null_policy w_null = false.
+Proof. intros H. revert H. vm_compute. intros H. first [discriminate H | split; reflexivity]. Qed.
 
 (* live / live: the state after the catch-up *)
 Lemma live_live_divergence :
